@@ -247,6 +247,32 @@ def _progress(ctx: Ctx, c: Collector) -> None:
         if not (spec_t is not None and spec_t[0] == "tuple" and len(spec_t[1]) == 3 and spec_t[1][0] == T.var(ps[1]) and spec_t[1][2] == T.var(ps[3])
                 and T.contains(spec_t[1][1], T.var(ps[2]))):
             problems.append(f"trigger spec {T.show(spec_t)} is not ({ps[1]}, {ps[2]}, {ps[3]})")
+        else:
+            # the shift of the spec: the caller's when one is given, the zero interval (no tier of the progress moves) otherwise
+            shv, shp = spec_t[1][1], T.var(ps[2])
+            for given in (True, False):
+                def truthy(t, given=given):
+                    t = T.strip(t)
+                    if t == ("cmp", "is", shp, T.NONE):
+                        return not given
+                    if t == ("cmp", "isnot", shp, T.NONE) or t == shp:
+                        return given
+                    return None
+                try:
+                    v = T.strip(boolfn.resolve_phi(shv, {}, truthy))
+                except boolfn.NotBoolean:
+                    v = None
+                if v is None:
+                    continue
+                if given and v != shp:
+                    problems.append(f"a shift that the caller passes is replaced by {T.show(v)[:60]}: the connection's delay is ignored in the wake-up test")
+                if not given and v != shp:
+                    zero = v[0] == "call" and v[1] == T.glob("mosaik.tiered_time.TieredInterval") and len(v[2]) == 1 and T.strip(v[2][0])[0] == "star" \
+                        and any(x in (("tuple", (T.const(0),)),) or (x[0] == "bag" and len(x[1]) == 1 and x[1][0][1] == T.const(0)) for x in T.subterms((v[2][0],)))
+                    if v[0] == "call" and v[1] == T.glob("mosaik.tiered_time.TieredInterval") and not zero:
+                        problems.append(f"without a shift the progress is compared after adding {T.show(v)[:60]}, which is not the zero interval")
+                if not given and v == shp:
+                    problems.append("a missing shift (None) is not replaced by the zero interval: time + None fails")
         sus = g.suspension_between(g.key(chk.stmt), g.key(app.stmt))
         if sus:
             problems.append("suspension point between the immediate check and the registration (lost wake-up): line(s) " + ", ".join(str(g.lineno(k)) for k in sus))
@@ -270,13 +296,13 @@ def _progress(ctx: Ctx, c: Collector) -> None:
         early = [r for r in s.returns if r.idx < app.idx]
         for r in early:
             gt = guard_terms(r.guards)
-            if not any(is_call_to(x, "_triggered_time") for x in gt):
+            if not any(_is_trig(x) for x in gt):
                 problems.append(f"early return under {' and '.join(T.show(x) for x in gt) or 'no condition'}")
         # a trigger that has fired already must not wait for the next set(): the check has a consequence
         # (early return, or the future is resolved on the spot)
         resolved = [e for e in s.of_kind("call") if e.term[1][0] == "attr" and e.term[1][2] == "set_result"
-                    and any(is_call_to(x, "_triggered_time") for x in guard_terms(e.guards))]
-        if not [r for r in early if any(is_call_to(x, "_triggered_time") for x in guard_terms(r.guards))] and not resolved:
+                    and any(_is_trig(x) for x in guard_terms(e.guards))]
+        if not [r for r in early if any(_is_trig(x) for x in guard_terms(r.guards))] and not resolved:
             problems.append("the immediate check has no consequence: a trigger that has fired already is registered and only resolved by the next "
                             "set(), which need not come (the last waiter of a run waits forever)")
         if problems:
@@ -313,7 +339,7 @@ def _progress(ctx: Ctx, c: Collector) -> None:
             if r.idx < chk.idx:
                 gts = guard_terms(r.guards)
                 ok_exit = any(x in (T.canon_cmp("==", ("attr", me, "time"), newt), ("not", futs), ("or", (T.canon_cmp("==", ("attr", me, "time"), newt), ("not", futs))), ("or", (T.canon_cmp("==", newt, ("attr", me, "time")), ("not", futs)))) for x in gts) \
-                    and any(e.idx < r.idx and e.guards == r.guards and e.term[2] == newt for e in stores)
+                    and any(e.idx < r.idx and all(g in r.guards for g in e.guards) and e.term[2] == newt for e in stores)
                 if not ok_exit:
                     problems.append(f"set() returns before the registered triggers are re-evaluated when {' and '.join(T.show(x)[:50] for x in gts) or 'always'}")
         # iteration covers the whole list
@@ -335,7 +361,15 @@ def _progress(ctx: Ctx, c: Collector) -> None:
                 problems.append("no waiter is ever woken (no set_result)")
             for e in sets:
                 gt = [x for x in guard_terms(e.guards[len(chk.guards):])]
-                trig = [x for x in gt if is_call_to(x, "_triggered_time")]
+                if e.iters != chk.iters and e.iters:
+                    # woken in a second loop, over the entries that the scan collected: their conditions are the
+                    # conditions under which an entry was collected
+                    src2 = T.strip(e.iters[-1][2])
+                    while src2[0] == "call" and src2[1][0] == "glob" and src2[1][1] in ("reversed", "list", "tuple", "iter") and len(src2[2]) == 1:
+                        src2 = T.strip(src2[2][0])
+                    if src2[0] == "bag" and len(src2[1]) == 1 and tuple(src2[1][0][3]) == tuple(chk.iters):
+                        gt = guard_terms(src2[1][0][2]) + gt
+                trig = [x for x in gt if _is_trig(x)]
                 if not trig:
                     problems.append("set_result is not conditional on the trigger test")
                 rest = [x for x in gt if x not in trig]
@@ -349,7 +383,7 @@ def _progress(ctx: Ctx, c: Collector) -> None:
             if rebuilt and not dels:
                 kept = unalias(rebuilt[-1].term[2], s, fi)
                 appends = [e for e in s.of_kind("call") if e.term[1][0] == "attr" and e.term[1][2] == "append" and e.iters == chk.iters]
-                keeps_untriggered = any(any(is_call_to(x, "_triggered_time") or (x[0] == "not" and is_call_to(x[1], "_triggered_time")) for x in guard_terms(e.guards[len(chk.guards):])) for e in appends) \
+                keeps_untriggered = any(any(_is_trig(x) or _is_not_trig(x) for x in guard_terms(e.guards[len(chk.guards):])) for e in appends) \
                     or (kept[0] == "bag" and any(any(is_call_to(y, "_triggered_time") for y in T.subterms((g,))) for el in kept[1] for g in el[2]))
                 if keeps_untriggered:
                     form = "copy-rebuild"
@@ -357,7 +391,7 @@ def _progress(ctx: Ctx, c: Collector) -> None:
                 problems.append("triggered entries are never removed from _futures")
             for e in dels:
                 gt = guard_terms(e.guards[len(chk.guards):])
-                if not any(is_call_to(x, "_triggered_time") for x in gt):
+                if not any(_is_trig(x) for x in gt):
                     problems.append("an entry is removed although it has not been triggered")
                 if any(x[0] == "not" and is_call_to(x[1], "cancelled") for x in gt):
                     pass  # leaving cancelled ones registered is harmless but keep silent
@@ -365,6 +399,15 @@ def _progress(ctx: Ctx, c: Collector) -> None:
         c.bad("O5d", qn, "set-reevaluates-all", "; ".join(problems), fi.loc)
     else:
         c.ok("O5d", qn, "set-reevaluates-all", "store precedes a loop over all registered triggers; wake iff triggered and not cancelled; remove iff triggered", fi.loc)
+
+
+def _is_trig(x: Term) -> bool:
+    """The trigger test as a condition: the value of _triggered_time() (None or a time) taken as a truth value or compared with None."""
+    return is_call_to(x, "_triggered_time") or (x[0] == "cmp" and x[1] == "isnot" and x[3] == T.NONE and is_call_to(x[2], "_triggered_time"))
+
+
+def _is_not_trig(x: Term) -> bool:
+    return (x[0] == "not" and is_call_to(x[1], "_triggered_time")) or (x[0] == "cmp" and x[1] == "is" and x[3] == T.NONE and is_call_to(x[2], "_triggered_time"))
 
 
 def _whole_list_iteration(src: Term, futs: Term) -> Optional[str]:
